@@ -263,18 +263,19 @@ int vf_run_case(Src &s, Report &r) {
 				st.t += 1 / 25.0;
 			}
 		} else if (what == 9 && (l25_kind = s.u8()) >= 64) {	// a Level 2.5 neighbourhood, a few packets per frame: MOT + POP + DRCS with random content, or a consistent object graph
-			std::vector<tx::Packet> pk; unsigned l25_page = l25_kind >= 128 ? l25::gen_l25(s, pk, &st.recent) : l25_kind >= 96 ? l25::gen_objgraph(s, pk, &st.recent) : l25::gen_top(s, pk, &st.recent);
-			if (l25_kind < 128) r.cls(l25_kind >= 96 ? "level-2.5-object-graph" : "top-neighbourhood");
+			std::vector<tx::Packet> pk; unsigned l25_page = l25_kind >= 128 ? l25::gen_l25(s, pk, &st.recent) : l25_kind >= 96 ? l25::gen_objgraph(s, pk, &st.recent) : l25_kind >= 80 ? l25::gen_eacem(s, pk) : l25::gen_top(s, pk, &st.recent);
+			if (l25_kind < 128) r.cls(l25_kind >= 96 ? "level-2.5-object-graph" : l25_kind >= 80 ? "eacem-trigger-page" : "top-neighbourhood");
 			size_t i = 0;
 			while (i < pk.size()) {
 				std::vector<vbi_sliced> f2; unsigned n = 1 + s.pick(12);
 				for (unsigned k = 0; k < n && i < pk.size(); ++k, ++i) { vbi_sliced sl; memset(&sl, 0, sizeof sl); sl.id = VBI_SLICED_TELETEXT_B; sl.line = 7 + k; memcpy(sl.data, pk[i].b, 42); if (s.chance(1, 40)) sl.data[s.pick(42)] ^= (uint8_t)(1 << s.pick(8)); f2.push_back(sl); ++st.ttx_lines; }
 				if (r.verbose) for (auto &x : f2) r.say("   l25 pkt %s\n", hex(x.data, 42).c_str());
 				vbi_decode(st.dec, f2.data(), (int) f2.size(), st.t); st.t += 1 / 25.0;
-				if (periodic) for (auto &x : f2) cycle.push_back(x);
+				// (a trigger with a countdown that is repeated unchanged is a new trigger each time, it fires later: such a page is no part of the periodic broadcast whose steady state is judged)
+				if (periodic && !(l25_kind >= 80 && l25_kind < 96)) for (auto &x : f2) cycle.push_back(x);
 			}
 			r.cls("level-2.5-neighbourhood");
-			if (l25_kind >= 64 && l25_kind < 96) {	// TOP: the index page 900 (every subpage until it is empty), page titles
+			if (l25_kind >= 64 && l25_kind < 80) {	// TOP: the index page 900 (every subpage until it is empty), page titles
 				for (int sub = 0; sub < 4; ++sub) { vbi_page pg; if (vbi_fetch_vt_page(st.dec, &pg, 0x900, sub, VBI_WST_LEVEL_2p5, 25, 1)) { st.read_ok = true; vbi_unref_page(&pg); } }
 				char title[64]; vbi_page_title(st.dec, (int) l25_page, 0, title);
 				if (!st.recent.empty()) vbi_page_title(st.dec, (int) st.recent[s.pick((uint32_t) st.recent.size())], 0, title);
